@@ -2,11 +2,17 @@
    elapsed time; instrumented calls.  This file holds only the property
    theorems; the model is Model/Timer.v, the proofs are in Proof/TimerP.v.
 
+   Everything is stated for an arbitrary sanitizer sz (three functions on
+   strings: names, tag keys, tag values; [san_id] when the scope has no
+   SanitizeOptions): scope.Timer(n) in a scope with (joinable) prefix P and
+   tags T is the timer with key (P, T, sn sz n), and a delivery carries
+   kstrs key = P ++ sn sz n (the sanitized fully qualified name) and T.
+
    Vocabulary.  A history is a list of API calls ([op]) over handles numbered
-   in creation order; [run fl clk root ops] is the model state after the
+   in creation order; [run sz fl clk root ops] is the model state after the
    history on a root scope of flavour fl (plain reporter, cached reporter,
    reporter-less test scope, both a plain and a cached reporter) with root = (prefix, tags), the i-th reading of
-   the clock returning [clk i].  [records clk root ops] is the specification:
+   the clock returning [clk i].  [records sz clk root ops] is the specification:
    the list of (timer, value) pairs the history asks to be recorded, in order
    (one per Record on a valid handle, one per Stop of a timer's stopwatch, one
    per Exec), computed from the API contract alone.  [delivered fl s acc] says
@@ -21,7 +27,7 @@
      test   : for every timer, its unreported values are the values of acc
               for that timer, in order. *)
 From Coq Require Import ZArith List Bool.
-From Tally Require Import Base.ObsCore Model.Buckets Model.Timer Proof.TimerP.
+From Tally Require Import Base.ObsCore Model.Buckets Model.Sanitize Model.Timer Proof.TimerP.
 Import ListNotations.
 Open Scope Z_scope.
 
@@ -31,30 +37,31 @@ Open Scope Z_scope.
    Record(d) is visible in the very next state with the timer's own name and
    tags, and a report pass changes nothing. *)
 Theorem C10_record_once_sync :
-  forall fl clk root,
+  forall sz fl clk root,
   (forall ops pre post, ops = pre ++ post ->
-     delivered fl (run fl clk root pre) (records clk root pre)) /\
+     delivered fl (run sz fl clk root pre) (records sz clk root pre)) /\
   (forall pre t d oi o,
-     nth_error (thand (run fl clk root pre)) t = Some oi ->
-     nth_error (timers (run fl clk root pre)) oi = Some o ->
-     delivered fl (step fl clk (run fl clk root pre) (ORecord t d))
-               (records clk root pre ++ [(tkey o, d)])) /\
-  (forall pre, delivered fl (step fl clk (run fl clk root pre) OPass) (records clk root pre)).
+     nth_error (thand (run sz fl clk root pre)) t = Some oi ->
+     nth_error (timers (run sz fl clk root pre)) oi = Some o ->
+     delivered fl (step sz fl clk (run sz fl clk root pre) (ORecord t d))
+               (records sz clk root pre ++ [(tkey o, d)])) /\
+  (forall pre, delivered fl (step sz fl clk (run sz fl clk root pre) OPass) (records sz clk root pre)).
 Proof.
-  intros fl clk root. split; [|split].
-  - intros ops pre post _. exact (record_once_sync fl clk root pre).
-  - exact (record_immediately fl clk root).
-  - exact (pass_adds_nothing fl clk root).
+  intros sz fl clk root. split; [|split].
+  - intros ops pre post _. exact (record_once_sync sz fl clk root pre).
+  - exact (record_immediately sz fl clk root).
+  - exact (pass_adds_nothing sz fl clk root).
 Qed.
 Print Assumptions C10_record_once_sync.
 
 (* scope.Timer(n) on a scope (prefix, tags) gives a handle to the timer
-   identified by (prefix, tags, n): its deliveries carry fqn prefix n and tags *)
-Theorem C10_timer_identity : forall fl clk root pre i n sc,
-  nth_error (scopes (run fl clk root pre)) i = Some sc ->
-  let s' := step fl clk (run fl clk root pre) (OTimer i n) in
-  exists oi o, nth_error (thand s') (length (thand (run fl clk root pre))) = Some oi /\
-               nth_error (timers s') oi = Some o /\ tkey o = (fst sc, snd sc, n).
+   identified by (prefix, tags, sanitized n): its deliveries carry
+   prefix ++ sn sz n (prefix in joinable form: "" or prefix ++ separator) and tags *)
+Theorem C10_timer_identity : forall sz fl clk root pre i n sc,
+  nth_error (scopes (run sz fl clk root pre)) i = Some sc ->
+  let s' := step sz fl clk (run sz fl clk root pre) (OTimer i n) in
+  exists oi o, nth_error (thand s') (length (thand (run sz fl clk root pre))) = Some oi /\
+               nth_error (timers s') oi = Some o /\ tkey o = (fst sc, snd sc, sn sz n).
 Proof. exact timer_identity. Qed.
 Print Assumptions C10_timer_identity.
 
@@ -66,9 +73,9 @@ Print Assumptions C10_tagged_lookup.
 
 (* cached reporter: AllocateTimer is called exactly once per timer object
    (distinct scope and name), with that timer's name and tags *)
-Theorem C10_alloc_once : forall fl clk root ops,
+Theorem C10_alloc_once : forall sz fl clk root ops,
   has_cached fl = true ->
-  let s := run fl clk root ops in
+  let s := run sz fl clk root ops in
   allocs (log s) = map (fun o => (tcid o, kstrs (tkey o))) (timers s) /\ NoDup (tkeys s).
 Proof. exact alloc_once. Qed.
 Print Assumptions C10_alloc_once.
@@ -77,23 +84,23 @@ Print Assumptions C10_alloc_once.
    further history records exactly one value on that timer:
    sat64 (clock at Stop - clock at Start), where sat64 is the identity on
    int64 (time.Time.Sub saturates outside). *)
-Theorem C10_stopwatch_elapsed : forall fl clk root pre t mid oi o,
-  let s0 := run fl clk root pre in
+Theorem C10_stopwatch_elapsed : forall sz fl clk root pre t mid oi o,
+  let s0 := run sz fl clk root pre in
   nth_error (thand s0) t = Some oi -> nth_error (timers s0) oi = Some o ->
-  let s1 := run fl clk root (pre ++ OStart t :: mid) in
-  delivered fl (step fl clk s1 (OStop (length (sws s0))))
-            (records clk root (pre ++ OStart t :: mid) ++
+  let s1 := run sz fl clk root (pre ++ OStart t :: mid) in
+  delivered fl (step sz fl clk s1 (OStop (length (sws s0))))
+            (records sz clk root (pre ++ OStart t :: mid) ++
              [(tkey o, sat64 (clk (nclk s1) - clk (nclk s0)))]).
 Proof. exact stopwatch_elapsed. Qed.
 Print Assumptions C10_stopwatch_elapsed.
 
 (* the same for a duration histogram's stopwatch: Stop is RecordDuration of
    the elapsed time (Model/Buckets.v decides the bucket) *)
-Theorem C10_hist_stopwatch_elapsed : forall fl clk root pre h mid oi,
-  let s0 := run fl clk root pre in
+Theorem C10_hist_stopwatch_elapsed : forall sz fl clk root pre h mid oi,
+  let s0 := run sz fl clk root pre in
   nth_error (hhand s0) h = Some oi ->
-  let s1 := run fl clk root (pre ++ OHStart h :: mid) in
-  step fl clk s1 (OStop (length (sws s0))) =
+  let s1 := run sz fl clk root (pre ++ OHStart h :: mid) in
+  step sz fl clk s1 (OStop (length (sws s0))) =
   hrecord (set_nclk s1 (S (nclk s1))) oi (sat64 (clk (nclk s1) - clk (nclk s0))).
 Proof. exact hist_stopwatch_elapsed. Qed.
 Print Assumptions C10_hist_stopwatch_elapsed.
@@ -109,21 +116,23 @@ Print Assumptions C10_elapsed_exact.
    sat64 (clock after f - clock before f) reaches the timer "latency" of
    SubScope(name), and exactly one of the counters name{result_type=error},
    name{result_type=success} grows by one (int64 arithmetic), every other
-   counter keeping its value; the two counters are distinct objects. *)
-Theorem C10_exec : forall fl clk root pre c b ce cs ti,
-  let s := run fl clk root pre in
+   counter keeping its value; the two counters are distinct objects as soon
+   as the value sanitizer keeps "error" and "success" apart (any per-character
+   sanitizer does: the lengths differ). *)
+Theorem C10_exec : forall sz fl clk root pre c b ce cs ti,
+  let s := run sz fl clk root pre in
   nth_error (calls s) c = Some (ce, cs, ti) ->
-  let s' := step fl clk s (OExec c b) in
-  exists cc, nth_error (e_calls (senv_of clk root pre)) c = Some cc /\
+  let s' := step sz fl clk s (OExec c b) in
+  exists cc, nth_error (e_calls (senv_of sz clk root pre)) c = Some cc /\
     fruns s' = fruns s ++ [(c, b)] /\
     rets s' = rets s ++ [b] /\
     nclk s' = S (S (nclk s)) /\
-    delivered fl s' (records clk root pre ++
-                     [(call_lat_key cc, sat64 (clk (S (nclk s)) - clk (nclk s)))]) /\
-    let kx := if b then call_err_key cc else call_ok_key cc in
+    delivered fl s' (records sz clk root pre ++
+                     [(call_lat_key sz cc, sat64 (clk (S (nclk s)) - clk (nclk s)))]) /\
+    let kx := if b then call_err_key sz cc else call_ok_key sz cc in
     pend_of s' kx = wrap64 (pend_of s kx + 1) /\
     (forall k, k <> kx -> pend_of s' k = pend_of s k) /\
-    call_err_key cc <> call_ok_key cc.
+    (sv sz R_ERROR <> sv sz R_SUCCESS -> call_err_key sz cc <> call_ok_key sz cc).
 Proof. exact exec_spec. Qed.
 Print Assumptions C10_exec.
 
@@ -151,32 +160,45 @@ Definition ex_t : bytes := [116].                                       (* "t" *
 (* two handles of the same timer, records around report passes, plain reporter *)
 Example C10_example_record :
   let ops := [OTimer 0 ex_t; ORecord 0 5; OPass; OTimer 0 ex_t; ORecord 1 (-7); OPass] in
-  tlog_plain (log (run FPlain ex_clk ex_root ops)) =
+  tlog_plain (log (run san_id FPlain ex_clk ex_root ops)) =
     [([[112;46;116]; [104]; [120]], [5]); ([[112;46;116]; [104]; [120]], [-7])] /\
-  records ex_clk ex_root ops = [(([112], [([104], [120])], ex_t), 5); (([112], [([104], [120])], ex_t), -7)] /\
-  tlog_cached (log (run FCached ex_clk ex_root ops)) = tlog_plain (log (run FPlain ex_clk ex_root ops)) /\
-  tlog_cached (log (run FBoth ex_clk ex_root ops)) = tlog_plain (log (run FPlain ex_clk ex_root ops)) /\
-  tlog_plain (log (run FBoth ex_clk ex_root ops)) = [] /\
-  unrep_of (timers (run FTest ex_clk ex_root ops)) ([112], [([104], [120])], ex_t) = [5; -7].
+  records san_id ex_clk ex_root ops = [(([112;46], [([104], [120])], ex_t), 5); (([112;46], [([104], [120])], ex_t), -7)] /\
+  tlog_cached (log (run san_id FCached ex_clk ex_root ops)) = tlog_plain (log (run san_id FPlain ex_clk ex_root ops)) /\
+  tlog_cached (log (run san_id FBoth ex_clk ex_root ops)) = tlog_plain (log (run san_id FPlain ex_clk ex_root ops)) /\
+  tlog_plain (log (run san_id FBoth ex_clk ex_root ops)) = [] /\
+  unrep_of (timers (run san_id FTest ex_clk ex_root ops)) ([112;46], [([104], [120])], ex_t) = [5; -7].
 Proof. vm_compute. repeat split; reflexivity. Qed.
 
 Example C10_example_stopwatch :
   let pre := [OTimer 0 ex_t] in
-  let s0 := run FCached ex_clk ex_root pre in
+  let s0 := run san_id FCached ex_clk ex_root pre in
   nth_error (thand s0) 0 = Some 0%nat /\
-  nth_error (timers s0) 0 = Some (TObj ([112], [([104], [120])], ex_t) 0 []) /\
-  tlog_cached (log (step FCached ex_clk (run FCached ex_clk ex_root (pre ++ OStart 0 :: [OPass]))
+  nth_error (timers s0) 0 = Some (TObj ([112;46], [([104], [120])], ex_t) 0 []) /\
+  tlog_cached (log (step san_id FCached ex_clk (run san_id FCached ex_clk ex_root (pre ++ OStart 0 :: [OPass]))
                          (OStop (length (sws s0))))) =
     [([[112;46;116]; [104]; [120]], [250])].
 Proof. vm_compute. repeat split; reflexivity. Qed.
 
 Example C10_example_exec :
   let pre := [OCall 0 [114;112;99]] in                                   (* NewCall(root, "rpc") *)
-  let s := run FPlain ex_clk ex_root pre in
+  let s := run san_id FPlain ex_clk ex_root pre in
   nth_error (calls s) 0 = Some (0%nat, 1%nat, 0%nat) /\
-  let s' := step FPlain ex_clk (step FPlain ex_clk s (OExec 0 true)) OPass in
+  let s' := step san_id FPlain ex_clk (step san_id FPlain ex_clk s (OExec 0 true)) OPass in
   log s' = [Ev 3 [250] [[112;46;114;112;99;46;108;97;116;101;110;99;121]; [104]; [120]];
             Ev 1 [1] [[112;46;114;112;99]; [104]; [120]; RESULT_TYPE; R_ERROR];
             Ev 6 [] []] /\
   fruns s' = [(0%nat, true)] /\ rets s' = [true].
 Proof. vm_compute. repeat split; reflexivity. Qed.
+
+(* a sanitizing scope (letters, digits and '_' allowed, replacement '_') with a
+   cached reporter: the timer is allocated, and delivered, under the sanitized
+   fully qualified name "svc_rpc_latency__ms_" *)
+Definition ex_opts : option sopts :=
+  let t := VC [(97, 122); (65, 90); (48, 57)] [95] in Some (SO t t t 95).
+Definition ex_san : sanz := San (san ex_opts Sanitize.KName) (san ex_opts Sanitize.KKey) (san ex_opts Sanitize.KValue).
+Example C10_example_sanitized :
+  let ops := [OTimer 0 [114;112;99;32;108;97;116;101;110;99;121;32;40;109;115;41]; ORecord 0 5] in
+  let s := run ex_san FCached ex_clk ([115;118;99], []) ops in
+  tlog_cached (log s) = [([[115;118;99;95;114;112;99;95;108;97;116;101;110;99;121;95;95;109;115;95]], [5])] /\
+  allocs (log s) = [(0, [[115;118;99;95;114;112;99;95;108;97;116;101;110;99;121;95;95;109;115;95]])].
+Proof. vm_compute. split; reflexivity. Qed.
